@@ -127,8 +127,14 @@ def replay_case(case):
                 want[ip] += Z[ia] / fd[ip, ia]
                 wabs[ip] += abs(Z[ia]) / fd[ip, ia]
         want = want - hart
-        with np.errstate(all="ignore"):
+        import warnings
+        err_before = np.geterr()
+        with warnings.catch_warnings():
+            warnings.simplefilter("ignore")
             got = f(shells, P, fpts, ncoords, Z, threshold_dist=float(tau), **kw)
+        if np.geterr() != err_before:
+            res["violations"].append("electrostatic_potential left numpy's floating-point error settings changed: %s -> %s" % (err_before, np.geterr()))
+            np.seterr(**err_before)
         res["n"] += 1
         if got.shape != want.shape:
             res["violations"].append("electrostatic_potential: shape %s, expected %s" % (got.shape, want.shape))
